@@ -761,8 +761,9 @@ def run_prob(D):
         for dt in (t.float32, t.float64):
             for bs in (None, 1, 3):
                 for me in ('softmax', 'sphere'):
-                    for w in (None, 'rand', 'ints'):
-                        weight = None if w is None else (D.rng.uniform(0.2, 5, size=dim) if w == 'rand' else np.arange(1, dim + 1).astype(np.float64))
+                    for w in (None, 'rand', 'ints', 'int-dtype'):
+                        weight = None if w is None else (D.rng.uniform(0.2, 5, size=dim) if w == 'rand' else
+                                                         (np.arange(1, dim + 1).astype(np.float64) if w == 'ints' else np.arange(2, dim + 2)))
                         kws.append(dict(dim=dim, batch_size=bs, method=me, weight=weight, dtype=dt))
     D.module('DiscreteProbability', M.DiscreteProbability, kws)
 
